@@ -372,14 +372,16 @@ class C01(MergeFamProp):
              'style': ['flow', 0, 0]},
         ]
 
-    P_SHARED = 0.08
+    P_SHARED = 0.12
 
     def gen_docs(self, rng, tier):
         d = {'raw': G.gen_doc(rng, self.VOCAB, self.DEPTH, self.PTAG)}
         if rng.random() < self.P_SHARED:
             # one node (preferably a TAGGED one) anchored and aliased: PyYAML gives the same data at both places, so must the config
             # (seeded change S6-C01: duplicates dropped from evaluated lists); outside the model, oracle only
-            r = G.share_node(rng, d['raw'], need=(lambda n: bool(n.get('kw'))) if rng.random() < 0.7 else None)
+            r0 = rng.random()
+            need = (lambda n: bool(n.get('kw'))) if r0 < 0.5 else (lambda n: not n.get('kw') and not n.get('t') and ('m' in n or 'q' in n)) if r0 < 0.8 else None
+            r = G.share_node(rng, d['raw'], need=need)
             if r is not None:
                 return [{'raw': r, 'shared': True}]
         if rng.random() < 0.5:
